@@ -3,6 +3,7 @@ package checks
 import (
 	"bytes"
 	"fmt"
+	"math/rand/v2"
 	"sort"
 	"strings"
 
@@ -577,6 +578,12 @@ const c18DirectPluginV1 = "  - name: c18\n    out: gen\n"
 // c18MakeConfig draws one configuration, renders it and returns the model's rule form.
 func c18MakeConfig(c *core.C, w *c18Workload, idx, k int, salt, pluginV1, pluginV2 string) (version, yaml string, cfg *c18Config) {
 	r := core.RandFor(c.Seed, "C18", idx, fmt.Sprintf("%s%d", salt, k))
+	if salt == "cfg" && k%6 == 5 {
+		// the legacy template form: `managed: true` and an options block of three keys (direct route only: its
+		// plugin path is a plain string, the helper is started through an argument list)
+		rb := core.RandFor(c.Seed, "C18", idx, fmt.Sprintf("beta%d", k))
+		return c18GenV1Beta1(rb)
+	}
 	if r.IntN(5) < 2 {
 		v1 := c18GenV1(r, &w.pools)
 		return "v1", v1.yaml(pluginV1), v1.toRules()
@@ -772,4 +779,33 @@ func init() {
 		Run:      c18Run,
 		Required: []string{"images", "configs_v1", "configs_v2", "configs_enabled", "configs_disabled", "file_options_rewritten", "jstype_rewritten", "exempt_pairs_checked", "exempt_file_options_withheld", "exempt_jstype_withheld", "wkt_options_checked", "governed_already_equal", "si_locations_removed", "si_field_root_removed", "si_field_root_kept", "value_override_checked", "prefix_suffix_checked", "default_checked", "jstype_value_checked", "generate_samples", "regression_witnesses"},
 	})
+}
+
+// c18GenV1Beta1 draws a v1beta1 generation template: managed mode is a boolean, the options block knows
+// cc_enable_arenas, java_multiple_files and optimize_for; each is a module-wide override.
+func c18GenV1Beta1(r *rand.Rand) (version, yaml string, cfg *c18Config) {
+	cfg = &c18Config{Enabled: r.IntN(6) != 0, Ambiguous: map[string][]string{}}
+	var sb strings.Builder
+	fmt.Fprintf(&sb, "version: v1beta1\nmanaged: %v\n", cfg.Enabled)
+	var opts strings.Builder
+	if r.IntN(2) == 0 {
+		b := r.IntN(2) == 0
+		fmt.Fprintf(&opts, "  cc_enable_arenas: %v\n", b)
+		cfg.Overrides = append(cfg.Overrides, c18Rule{FileOption: "cc_enable_arenas", Value: b})
+	}
+	if r.IntN(2) == 0 {
+		b := r.IntN(2) == 0
+		fmt.Fprintf(&opts, "  java_multiple_files: %v\n", b)
+		cfg.Overrides = append(cfg.Overrides, c18Rule{FileOption: "java_multiple_files", Value: b})
+	}
+	if r.IntN(2) == 0 {
+		v := []string{"SPEED", "CODE_SIZE", "LITE_RUNTIME"}[r.IntN(3)]
+		fmt.Fprintf(&opts, "  optimize_for: %s\n", v)
+		cfg.Overrides = append(cfg.Overrides, c18Rule{FileOption: "optimize_for", Value: v})
+	}
+	if opts.Len() > 0 {
+		sb.WriteString("options:\n" + opts.String())
+	}
+	sb.WriteString("plugins:\n  - name: c18\n    out: gen\n")
+	return "v1beta1", sb.String(), cfg
 }
